@@ -473,7 +473,11 @@ pub fn budget_lines(run: usize, p: &Problem, kmax: u32) -> (Vec<Value>, Option<S
                    "ret_tau": ret(1.0 / tau), "ret_kappa": ret(1.0 / kappa)})
         }).collect()
     };
-    let mut lines = vec![json!({"ev": "Long", "run": run, "passes": passes(&long.events),
+    // did the long run end INSIDE its last pass (a failing checkpoint after the scaling update / KKT solve / line search), or at
+    // the top of it (termination test, or the lack-of-progress checkpoint that follows it immediately)?
+    let last_top = long.events.iter().rposition(|e| e.name == "LoopTop").unwrap_or(0);
+    let exit_in_pass = long.events[last_top..].iter().any(|e| (e.name == "Ckpt" && e.i.len() >= 2 && e.i[0] >= 1 && e.i[1] == 2) || (e.name == "Scale" && e.i.len() >= 2 && e.i[1] == 0));
+    let mut lines = vec![json!({"ev": "Long", "run": run, "passes": passes(&long.events), "exit_in_pass": exit_in_pass,
         "iterations": lr.iterations, "status": STATUS_NAMES[lr.status], "same_dims": same_dims,
         "ret": digest(&[&lr.x, &lr.s, &lr.z]), "maxiter": st.max_iter})];
     let top = lr.iterations.min(kmax);
@@ -540,7 +544,9 @@ pub fn resolve_lines(run: usize, p: &Problem, k: u32) -> Vec<Value> {
     let mut lines = vec![];
     for (round, (evs, status, iters, ret)) in outs.iter().enumerate() {
         let name = ["Long", "Resolve", "Short"][round];
-        lines.push(json!({"ev": name, "run": run, "k": k, "passes": passes(evs), "iterations": iters,
+        let last_top = evs.iter().rposition(|e| e.name == "LoopTop").unwrap_or(0);
+        let exit_in_pass = evs[last_top..].iter().any(|e| (e.name == "Ckpt" && e.i.len() >= 2 && e.i[0] >= 1 && e.i[1] == 2) || (e.name == "Scale" && e.i.len() >= 2 && e.i[1] == 0));
+        lines.push(json!({"ev": name, "run": run, "k": k, "passes": passes(evs), "iterations": iters, "exit_in_pass": exit_in_pass,
             "status": STATUS_NAMES[*status], "same_dims": same_dims, "ret": ret, "maxiter": st.max_iter}));
     }
     lines
